@@ -30,25 +30,21 @@ class Outcome:
         self.log = []           # per-step summary for the replay file
 
 
-SCRATCH_ROOT = None
+def scratch_root():
+    base = "/dev/shm" if os.path.isdir("/dev/shm") and os.access("/dev/shm", os.W_OK) else \
+        os.environ.get("TMPDIR", "/tmp")
+    return os.path.join(base, "rv-%d" % os.getpid())
 
 
 def scratch_dir(tag):
-    global SCRATCH_ROOT
-    if SCRATCH_ROOT is None:
-        base = "/dev/shm" if os.path.isdir("/dev/shm") and os.access("/dev/shm", os.W_OK) else \
-            os.environ.get("TMPDIR", "/tmp")
-        SCRATCH_ROOT = os.path.join(base, "rv-%d" % os.getpid())
-        os.makedirs(SCRATCH_ROOT, exist_ok=True)
-    d = os.path.join(SCRATCH_ROOT, tag)
+    d = os.path.join(scratch_root(), tag)
     shutil.rmtree(d, ignore_errors=True)
     os.makedirs(d)
     return d
 
 
 def cleanup_scratch():
-    if SCRATCH_ROOT:
-        shutil.rmtree(SCRATCH_ROOT, ignore_errors=True)
+    shutil.rmtree(scratch_root(), ignore_errors=True)
 
 
 def spell(t, cwd):
@@ -280,6 +276,14 @@ class HistoryRunner:
         ch = self.checks
         ev = self.out.events
         cex, mex = collections.Counter(ex), collections.Counter(m.executed)
+        if cex != mex and "execset" not in ch and "csum" not in ch:
+            # binary and model no longer agree on what ran; this property does not speak about that,
+            # so the rest of the history cannot be judged against the model
+            self.out.diverged = "exec-set"
+            ev["diverged:exec-set"] += 1
+            if nested and not (mex - cex):
+                ev["diverged:nested-csum-overbuild"] += 1
+            return
         # ---------- C01: contents after a successful command ----------
         if ok and "content" in ch:
             memo = {}
@@ -332,7 +336,8 @@ class HistoryRunner:
                 missing = sorted((mex - cex).elements())
                 if nested and not missing:
                     ev["c02:excluded-nested-csum-overbuild"] += 1
-                    self.out.known_overbuild = True
+                    self.out.diverged = "nested-csum-overbuild"
+                    return
                 else:
                     prop = "C02"
                     self.violate(prop, "exec-set", dict(ctx, extra=extra, missing=missing),
